@@ -268,4 +268,22 @@ PROPS = {
         "assumptions": ["a registry image faithfully stands for a code version"],
         "parts": [plain("exhaustive", "TestExhaustive"), rapid("histories", "TestProp", 8000, 160000)],
     },
+    "C09": {
+        "pkg": "c09",
+        "level": "exploration",
+        "level_text": "Three parts. verbs: generated trees (local and decoded) x verb in {v,s,q,x,X,d,t,e,c,U,b,o,f,g} x subsets of the flags {-,#,space,0} x width "
+                      "0-60 x precision 0-40, through Formattable and directly when the outermost layer is a library type, compared with what fmt prints for the "
+                      "Error() string (resp. fmt's %!verb(type) notation, resp. a Go-syntax dump for %#v). verbose-structure: %+v is parsed and compared with the "
+                      "tree: starts with Error(), exactly one numbered entry per visible layer in display order, 'Error types' line naming every layer's Go type in "
+                      "that order, indentation of multi-cause branches growing with depth, every library wrapper's own detail present in its entry. golden-corpus: "
+                      "the repository's curated leaf x wrapper corpus (13 files, 484 run entries, Sentry renderings and via-network variants included) is "
+                      "re-rendered by the repository's own test code through go test -overlay and compared with its vetted goldens.",
+        "level_note": "The '+' flag is exercised only as plain %+v; %p/%T never reach Format; with multi-line messages only the first line of the header is demanded "
+                      "(as the vetted goldens show). The corpus comparison normalises nothing but the repository's own fmtClean plus toolchain closure naming.",
+        "technique": "property-based testing (rapid): differential oracle fmt-on-Error()-string, structural %+v parser against the tree; differential replay of the repository's golden corpus",
+        "rule": "verbs: non-trivial = a flag/width/precision combination on a chain of at least 3 layers; verbose-structure: non-trivial = at least 5 entries, or at "
+                "least 3 with a multi-cause node; golden-corpus: every corpus file, exhaustive. Distinct = hash of the case JSON.",
+        "assumptions": ["Go 1.23 fmt semantics for strings", "the vetted golden files of the repository are correct"],
+        "parts": [rapid("verbs", "TestVerbs", 24000, 480000), rapid("verbose-structure", "TestVerbose", 8000, 160000), plain("golden-corpus", "TestCorpus")],
+    },
 }
